@@ -72,8 +72,9 @@ pub fn gen_script_ex(rng: &mut Rng, n_ops: usize, with_faults: bool, with_timeou
                     steps.push(Step::Finish(oi));
                 }
                 _ => {
-                    // finished early by the caller
-                    steps.push(Step::Finish(oi));
+                    // finished early by the caller - or simply dropped (no scrub: the driver finds out
+                    // when the next item for it cannot be delivered)
+                    steps.push(if rng.chance(1, 4) { Step::DropStream(oi) } else { Step::Finish(oi) });
                     live_search.remove(k);
                 }
             }
